@@ -13,6 +13,8 @@ import (
 	"gosym/sym"
 )
 
+func isHash(v value) bool { _, ok := v.(*hashv); return ok }
+
 // ---- symbolic helpers ----
 
 func isSym(v value) bool {
@@ -126,8 +128,8 @@ func (m *Machine) concretizeBV(t *sym.Term, c uint64) {
 	ctx := m.Ctx
 	w := t.Sort.W
 	c &= maskW(w)
-	if t.Op == sym.OVar {
-		if dom, ok := m.Domains[t.Name]; ok && dom[1]-dom[0] < 64 {
+	if name := varOf(t); name != "" {
+		if dom, ok := m.Domains[name]; ok && dom[1]-dom[0] < 64 {
 			m.concretizeRange(t, c, dom[0], dom[1])
 			return
 		}
@@ -136,6 +138,17 @@ func (m *Machine) concretizeBV(t *sym.Term, c uint64) {
 		bit := ctx.Eq(ctx.Extract(t, i, i), ctx.BVC(1, 1))
 		m.decide(bit, (c>>uint(i))&1 == 1, "concretize-bit")
 	}
+}
+
+// varOf: the input variable a term directly stands for (possibly extended).
+func varOf(t *sym.Term) string {
+	if t.Op == sym.OVar {
+		return t.Name
+	}
+	if (t.Op == sym.OZext || t.Op == sym.OSext) && t.Args[0].Op == sym.OVar {
+		return t.Args[0].Name
+	}
+	return ""
 }
 
 // concretizeRange pins t (known to lie in [lo,hi]) to c by the chain t==lo?, t==lo+1?, ...
@@ -554,7 +567,26 @@ func (m *Machine) notv(v value) value {
 	panic("notv")
 }
 
+// hashEq: equality of two (possibly abstract) hash values.
+func (m *Machine) hashEq(x, y value) value {
+	hx, okx := x.(*hashv)
+	hy, oky := y.(*hashv)
+	if !okx || !oky {
+		abort("comparison of an abstract hash with a plain integer")
+	}
+	return mkSym(hx.s == hy.s, m.strEqTerm(mkStr(hx.s, hx.b), mkStr(hy.s, hy.b)))
+}
+
 func (m *Machine) intBinop(op token.Token, k ikind, t types.Type, x, y value) value {
+	if _, ok := x.(*hashv); ok || isHash(y) {
+		switch op {
+		case token.EQL:
+			return m.hashEq(x, y)
+		case token.NEQ:
+			return m.notv(m.hashEq(x, y))
+		}
+		abort("arithmetic on an abstract hash value")
+	}
 	if op == token.SHL || op == token.SHR {
 		// count may have a different type; it is concretised when symbolic
 		yc := m.concretize(y)
@@ -1103,8 +1135,8 @@ func (m *Machine) checkIndex(idx value, length int, what string) int {
 			}
 		}
 		known := false
-		if t.Op == sym.OVar {
-			if dom, okd := m.Domains[t.Name]; okd && dom[0] >= 0 && dom[1] < int64(length) {
+		if name := varOf(t); name != "" {
+			if dom, okd := m.Domains[name]; okd && dom[0] >= 0 && dom[1] < int64(length) {
 				known = true // the domain assumption already implies the bounds check
 			}
 		}
